@@ -165,3 +165,94 @@ Example c04_wide_nonvacuous :
   wide 2 3 (Some 1%Z) 2 /\ eos_ok 2 (Some 1%Z) /\ to_completion (Some 1%Z) true /\
   complete 2 (Some 1%Z) 2 [0%Z; 1%Z] /\ sfin (chain ex_lm 0%Z [0%Z; 1%Z]) = true.
 Proof. exact ex_wide. Qed.
+
+(* ---- the tie to the source text (beam_search_advance) -------------------------------------------
+   PV.Gen.C04Src.bsa_body is regenerated from /repo/src/pydrobert/torch/_decoding.py on every run
+   (harness/py2coq/translate.py: the WHOLE body of `beam_search_advance`, node for node; the decorator
+   @script is outside it - TorchScript is not modelled); PV.MiniPy.Interp is the semantics of the
+   translated subset; SrcRun.ext04 gives the torch calls (dim, shape, size, unsqueeze, broadcasting +,
+   flatten, topk, trunc_divide, %, expand, gather, cat, new_full / new_zeros / new_empty / ones, max,
+   item, !=, any, scatter) the meaning defined in PV.MiniTorch.OpsC04 (exact scores, -inf, integers;
+   at most 3 dimensions).  torch.topk IS the model's executable stable top-k there: torch documents its
+   tie-break as unspecified, so it is an oracle, validated on every run by the harness (source_tie in
+   harness/props/c04.py runs the interpreted source against torch); the theorems above assume only
+   topk_ok of it.  SrcRun.advance_vars encodes the model's beams as the five arguments:
+   log_probs_t (N, Kp, V), width, log_probs_prev (N, Kp), y_prev (S, N, Kp), y_prev_lens (N, Kp) or None
+   (has_lens = false).  Tie.wf_adv: N, Kp, V >= 1, all rows Kp wide, all columns S high, all score rows
+   V wide, every length <= S when lengths are given and S > 0. *)
+From PV Require MiniPy.Syntax MiniPy.Interp MiniTorch.OpsC04 Gen.C04Src C04.SrcRun C04.TieRun C04.Tie.
+
+(* for EVERY well-formed input the interpreted source returns the four tensors that encode the model's
+   rows - next prefixes (every cell, also those beyond the lengths), lengths, scores, source indices -
+   and raises RuntimeError exactly where the model answers None (width 0; non-zero lengths at t = 0;
+   torch.cat of a height-S y_next with the height-(S+1) filler) *)
+Theorem c04_source_advance_is_model : forall V width S has_lens beams logp,
+  Tie.wf_adv V S has_lens beams logp ->
+  exists st,
+    Interp.run SrcRun.ext04 C04Src.bsa_body (SrcRun.advance_vars V width S has_lens beams logp) =
+    match advance_fn topk_stable V width S has_lens beams logp with
+    | Some rows => Interp.Ok (SrcRun.enc_rows (Tie.out_height S has_lens beams) width rows) st
+    | None => Interp.Exc SrcRun.runtime_error st
+    end.
+Proof. exact Tie.advance_tie. Qed.
+Print Assumptions c04_source_advance_is_model.
+
+(* the same in the executable form the harness evaluates on the advance cases of every run: the
+   interpreted source, its four tensors read back as rows, IS the model, outcome for outcome *)
+Theorem c04_source_advance_refines_model : forall V width S has_lens beams logp,
+  Tie.wf_adv V S has_lens beams logp ->
+  SrcRun.src_advance V width S has_lens beams logp = Some (advance_fn topk_stable V width S has_lens beams logp).
+Proof. exact Tie.src_advance_tie. Qed.
+Print Assumptions c04_source_advance_refines_model.
+
+Theorem c04_source_advance_check_is_check : forall V width S has_lens beams logp impl,
+  Tie.wf_adv V S has_lens beams logp ->
+  SrcRun.src_advance_check V width S has_lens beams logp impl = check_advance V width S has_lens beams logp impl.
+Proof. exact Tie.src_advance_check_is_check. Qed.
+Print Assumptions c04_source_advance_check_is_check.
+
+(* below the model: for ALL tensors (a 3-D log_probs_t and y_prev of any sizes, log_probs_prev and
+   y_prev_lens of any shape, any data, any integer width) the interpreted source and the straight-line
+   tensor program TieRun.adv_tensor agree - same four tensors, RuntimeError at the same shape checks,
+   outside the modelled domain together *)
+Theorem c04_source_advance_is_tensor_program : forall lpt w lpp y lens N Kp V tm1 Ny Ky,
+  OpsC04.vshape lpt = [N; Kp; V] -> OpsC04.vshape y = [tm1; Ny; Ky] ->
+  TieRun.sim (Interp.run SrcRun.ext04 C04Src.bsa_body (TieRun.vars0 lpt w lpp y lens))
+             (TieRun.adv_tensor lpt w lpp y lens).
+Proof. exact TieRun.run_is_adv. Qed.
+Print Assumptions c04_source_advance_is_tensor_program.
+
+(* `if log_probs_t.dim() != 3: raise RuntimeError(...)`, before anything else *)
+Theorem c04_source_advance_raises_not_3d : forall lpt w lpp y lens,
+  length (OpsC04.vshape lpt) <> 3 ->
+  Interp.run SrcRun.ext04 C04Src.bsa_body (TieRun.vars0 lpt w lpp y lens)
+  = Interp.Exc SrcRun.runtime_error (Interp.mkState (TieRun.vars0 lpt w lpp y lens) []).
+Proof. exact Tie.advance_lpt_not_3d. Qed.
+Print Assumptions c04_source_advance_raises_not_3d.
+
+(* composed with c04_topk_stable_ok: a statement purely about the interpreted source - whatever it
+   returns on a well-formed input, read back as rows: one row per batch element, [width] slots whose
+   scores are in best-first order (-inf, the unusable slots, at the end), [width] source indices that
+   all point into the old beam *)
+Theorem c04_source_advance_sorted : forall V width S has_lens beams logp rows,
+  Tie.wf_adv V S has_lens beams logp ->
+  SrcRun.src_advance V width S has_lens beams logp = Some (Some rows) ->
+  length rows = length beams /\
+  forall r, In r rows ->
+    length (fst r) = width /\ length (snd r) = width /\
+    sorted_desc (map sc (fst r)) /\ forall s, In s (snd r) -> s < length (hd [] beams).
+Proof. exact Tie.source_advance_sorted. Qed.
+Print Assumptions c04_source_advance_sorted.
+
+(* non-vacuity: a well-formed input (two batch elements, beams of two ragged prefixes of height 2 so that
+   y must grow, vocabulary 2, width 3 < 4 candidates, one -inf prefix), the interpreted source run on it
+   (vm_compute), and what it returns *)
+Example c04_source_advance_nonvacuous :
+  Tie.wf_adv 2 2 true Tie.ex_beams Tie.ex_logp /\
+  SrcRun.src_advance 2 3 2 true Tie.ex_beams Tie.ex_logp
+    = Some (advance_fn topk_stable 2 3 2 true Tie.ex_beams Tie.ex_logp) /\
+  option_map (map (fun r => map canon_adv (combine (fst r) (snd r))))
+    (advance_fn topk_stable 2 3 2 true Tie.ex_beams Tie.ex_logp)
+  = Some [[Some ([1; 0; 1]%Z, 3, (-65)%Z, 0); Some ([1; 0; 0]%Z, 3, (-67)%Z, 0); Some ([0; 0]%Z, 2, (-130)%Z, 1)];
+          [Some ([1; 1; 1]%Z, 3, (-4)%Z, 1); Some ([1; 1; 0]%Z, 3, (-7)%Z, 1); None]].
+Proof. exact Tie.ex_nonvacuous_src. Qed.
